@@ -146,6 +146,7 @@ def step (st : St) (line : String) : St × String :=
   let toks := (line.trimAscii.toString.splitOn " ").filter (· ≠ "")
   match toks with
   | "case" :: _ => (st, both "ok" "ok")
+  | ["impl.viafen", _] => (st, both "ok" "ok")   -- how the IMPLEMENTATION side builds its boards (through its FEN reader); nothing for the model to do
   | ["tt.new"] => ({ st with tt := {}, ttLog := [] }, both "ok" "ok")
   | ["tt.store", k, ev, mv, d, b] =>
     match Driver.parseU64 k, ev.toInt?, parseOptMv mv, d.toNat?, parseBounds b with
@@ -594,7 +595,9 @@ def step (st : St) (line : String) : St × String :=
     let fit (g : GoParams) (toks : List String) : String :=
       match g.timeLimit with
       | some ms => fitsText ms (ownClock c (toks.drop 1)).1
-      | none => "fits"
+      | none =>
+        -- no time limit at all: fine only when the command does not name the mover's own clock
+        if toks.contains (if c = .white then "wtime" else "btime") then "unlimited" else "fits"
     let same := if ga.timeLimit = gb.timeLimit then "same" else "differ"
     (st, both s!"{same} {fit ga a} {fit gb b}" "same fits fits")
   | _ => (st, modelOnly "bad-op")
